@@ -26,9 +26,31 @@ func TestC09(t *testing.T) {
 		default:
 			spec.ActiveSporks = uint64(c.Int("c09.sporkHeight", 3, 25))
 		}
-		h := sim.NewHist(c, spec, genWorldOpts(c))
+		opts := genWorldOpts(c)
+		bridgeWorld := c.Weighted("c09.bridgeWorld", 2, 1) == 1
+		if bridgeWorld {
+			spec.ActiveSporks = 2
+			opts.Bridge = true
+			for len(spec.Users) < 5 {
+				spec.Users = append(spec.Users, sim.UserSpec{Znn: 9000, Qsr: 90000})
+			}
+		}
+		h := sim.NewHist(c, spec, opts)
 		h.Intents = sim.DefaultIntents()
 		h.AckDepthMax = 2
+		if bridgeWorld {
+			c.Class("bridge-world")
+			if err := sim.BridgeScript(h, c.Int("c09.wraps", 0, 4), c.Int("c09.unwraps", 0, 3)); err != nil {
+				c.Note("bridge script stopped: %v", err)
+				c.Class("bridge-script-incomplete")
+			}
+			if err := sim.LiquidityScript(h); err != nil {
+				c.Note("liquidity script stopped: %v", err)
+				c.Class("liquidity-script-incomplete")
+			}
+			h.Intents = append(h.Intents, sim.BridgeIntents()...)
+			h.Intents = append(h.Intents, sim.BridgeIntents()...)
+		}
 		seen := map[types.Hash]bool{}
 		refunds, applied, straddle, nonDefault := 0, 0, 0, 0
 		checkReceives := func() {
